@@ -22,6 +22,16 @@ def run(tier):
         r2 = tlc_must_pass(tag, "MCCreateLarge", cfg, workers=2, timeout=900)
         rep.add_tlc(r2)
         rep.add_replay("createlarge", replay("createlarge", r2.replay, tag))
+    # the cell order of one projected site for targets of any size (ProjOdometer.tla): inductive invariant, Apalache
+    import vcore
+    w = vcore.apalache_inductive("c02_projodometer", "ProjOdometer", "PInit", "PNext", "IndInv", cinit="ConstInit")
+    vcore.apalache_inductive("c02_projodometer_ab", "ProjOdometer", "PInit", "PNext", "IndInv", cinit="ConstInitAB", expect_failure=True)
+    rep.extra["apalache_inductive"] = {"module": "ProjOdometer", "invariant": "IndInv", "obligations": 2, "wall_s": round(w, 1),
+                                       "non_vacuity": "refuted under ConstInitAB (AB_NoZero: coordinates of the previous site kept)",
+                                       "bound_to_code_by": "the two-population createlarge replays above compare every cell of 541 x 541, 1029 x 41 and 257 x 257 targets"}
+    rep.rule += (" The order in which the weights of one site meet the cells of the spectrum (ProjectIter's coordinates against the "
+                 "row-major cells, with the coordinate buffer reused from site to site) is an inductive invariant of ProjOdometer.tla "
+                 "for two populations with targets of ANY size (Apalache).")
     rep.rule += (" Two-population cohorts whose JOINT denominator leaves the f64 range (2 x 270 and 514 + 20 individuals) and a "
                  "cohort whose output has 257 x 257 cells are checked in factored form: TLC checks that every one-axis row is a "
                  "distribution and (on small scenarios) that the contribution is the outer product of the rows; the replay sums "
